@@ -258,7 +258,8 @@ def _bcast_phi(a, phis):
     NumPy broadcasts `atom(arg) + off`."""
     n = a.off.size
     src = getattr(a, 'nat_shape', None) if a.kind == 'power' else None
-    src = a.arg.shape if src is None or isinstance(a.arg, list) else src
+    if src is None and not isinstance(a.arg, list):
+        src = a.arg.shape
     if len(phis) == n and (isinstance(a.arg, list) or src == a.off.shape or a.kind in SCALAR_OUT):
         return phis
     if len(phis) == 1:
